@@ -6,5 +6,6 @@ cd /repo || exit 9
 if [ -n "$(git status --porcelain --untracked-files=no)" ]; then echo "repo not clean"; exit 9; fi
 git apply "$PATCH" || { echo "patch does not apply"; exit 9; }
 cd /verif && ./check $P --tier $TIER > /tmp/try_seed_$P.log 2>&1; rc=$?
-cd /repo && git checkout -- . 
+cd /repo && git checkout -- .
+git -C /verif checkout -- evidence/$P.json 2>/dev/null   # the trial run must not replace the clean-tree evidence
 echo "exit=$rc"; grep -c "^VIOLATION" /tmp/try_seed_$P.log; grep "^VIOLATION\|^INCONCLUSIVE\|^  signature" /tmp/try_seed_$P.log | head -${4:-8} | cut -c1-260
